@@ -6,7 +6,8 @@ class AppStartFailure(Exception):
     """fake_trx.Application() raised while being constructed with a documented command line: the code under
     test cannot start in that configuration.  The runner turns it into a violation (never into exit 2)."""
 
-    def __init__(self, argv, what):
-        super().__init__(list(argv), what)
+    def __init__(self, argv, what, want_ports=None):
+        super().__init__(list(argv), what, want_ports)
         self.argv = list(argv)
         self.what = what
+        self.want_ports = want_ports      # set when the application came up but not on the documented ports
